@@ -344,6 +344,100 @@ func c17(c *Ctx) {
 		r.Check("backends:attempt-closures", n >= 3, token.NoPos, fmt.Sprintf("%d per-attempt request closures in pkg/backends (datadog, influxdb, newrelic)", n))
 	})
 
+	c.Rule("C17.R7", "graphite: the host tag is added for every series that has a source and no host: tag of its own - whether or not it has any other tag", 1, func(r *Rule) {
+		n := 0
+		for _, fn := range pkgFuncs(w, "pkg/backends/graphite") {
+			for _, cl := range callsIn(fn) {
+				if !strings.HasSuffix(calleeName(cl), ".WriteString") {
+					continue
+				}
+				a := cl.Common().Args
+				if s, ok := constString(a[len(a)-1]); !ok || s != ";host=" {
+					continue
+				}
+				n++
+				c.SawFunc(FuncName(fn))
+				bad := ""
+				for _, f := range factsAt(cl.Block()) {
+					mentionsLen := func(v ssa.Value) bool {
+						lc, ok := v.(*ssa.Call)
+						return ok && isCall(lc, "builtin len") && strings.Contains(strings.ToLower(pathOf(lc.Call.Args[0])), "tags")
+					}
+					isConst := func(v ssa.Value) bool { _, ok := v.(*ssa.Const); return ok }
+					if f.Op != token.ILLEGAL && (mentionsLen(f.X) && isConst(f.Y) || mentionsLen(f.Y) && isConst(f.X)) {
+						bad = condExpr(f.X) + " " + f.Op.String() + " " + condExpr(f.Y)
+					}
+				}
+				r.Check(FuncName(fn)+":host-tag-independent-of-other-tags", bad == "", cl.Pos(), "the ;host= tag does not depend on the number of tags"+map[bool]string{true: "", false: " (written only when " + bad + ")"}[bad == ""])
+				okSrc := cmpHolds(factsAt(cl.Block()), func(v ssa.Value) bool { return strings.Contains(pathOf(v), "source") }, func(v ssa.Value) bool { s, ok := constString(v); return ok && s == "" }, token.NEQ)
+				r.Check(FuncName(fn)+":host-tag-when-source", okSrc, cl.Pos(), "the ;host= tag is written when the series has a source")
+			}
+		}
+		r.Check("graphite:host-tag-site", n >= 1, token.NoPos, fmt.Sprintf("%d sites writing ;host=", n))
+	})
+
+	c.Rule("C17.R8", "influxdb line protocol: a field separator is never written in front of the first field - every ',' that starts a piece of the field list is written only when the list is known to be non-empty (the trailing-comma style needs no such guard)", 1, func(r *Rule) {
+		n, lead := 0, 0
+		for _, fn := range pkgFuncs(w, "pkg/backends/influxdb") {
+			root := fn
+			for root.Parent() != nil {
+				root = root.Parent()
+			}
+			if root.Name() != "addBaseTimer" && root.Name() != "addHistogramTimer" {
+				continue
+			}
+			for _, cl := range callsIn(fn) {
+				name := calleeName(cl)
+				var lit string
+				var okLit bool
+				a := cl.Common().Args
+				switch {
+				case strings.HasSuffix(name, "strings.Builder).WriteString") || strings.HasSuffix(name, "bytes.Buffer).WriteString"):
+					lit, okLit = constString(a[len(a)-1])
+					if !okLit {
+						// WriteString(fmt.Sprintf(format, ...))
+						if sc, isC := a[len(a)-1].(*ssa.Call); isC && isCall(sc, "fmt.Sprintf") {
+							lit, okLit = constString(sc.Call.Args[0])
+						}
+					}
+				case strings.HasSuffix(name, "strings.Builder).WriteByte") || strings.HasSuffix(name, "bytes.Buffer).WriteByte") || strings.HasSuffix(name, "strings.Builder).WriteRune"):
+					if k, isC := constInt(a[len(a)-1]); isC {
+						lit, okLit = string(rune(k)), true
+					}
+				}
+				if !okLit {
+					continue
+				}
+				n++
+				if !strings.HasPrefix(lit, ",") {
+					continue
+				}
+				lead++
+				// the builder (receiver) is known to hold something already
+				recv := a[0]
+				isLen := func(v ssa.Value) bool {
+					lc, ok := v.(*ssa.Call)
+					return ok && strings.HasSuffix(calleeName(lc), ".Len") && len(lc.Call.Args) == 1 && pathOf(lc.Call.Args[0]) == pathOf(recv)
+				}
+				isK := func(k int64) func(ssa.Value) bool {
+					return func(v ssa.Value) bool { x, ok := constInt(v); return ok && x == k }
+				}
+				fs := factsAt(cl.Block())
+				guarded := cmpHolds(fs, isLen, isK(0), token.GTR, token.NEQ) || cmpHolds(fs, isLen, isK(1), token.GEQ)
+				if lit == "," && !guarded {
+					// a lone separator that directly follows another write to the same builder is a trailing comma
+					for _, prev := range cl.Block().Instrs[:instrIndex(cl.(ssa.Instruction))] {
+						if pc, ok := prev.(ssa.CallInstruction); ok && strings.Contains(calleeName(pc), ").Write") && len(pc.Common().Args) > 0 && pathOf(pc.Common().Args[0]) == pathOf(recv) {
+							guarded = true
+						}
+					}
+				}
+				r.Check(FuncName(fn)+":leading-separator-guarded", guarded, cl.Pos(), fmt.Sprintf("%q is written in front of a field: only valid when the field list is not empty", lit))
+			}
+		}
+		r.Check("influxdb:field-writes", n >= 3, token.NoPos, fmt.Sprintf("%d constant pieces written to the field list (%d begin with a separator)", n, lead))
+	})
+
 	c.Rule("C17.R4", "hard limits: at most 20 data per CloudWatch call; the statsd relay tests the packet size before every write", 4, func(r *Rule) {
 		cw := w.Func("pkg/backends/cloudwatch", "(*Client).SendMetricsAsync")
 		if cw == nil {
